@@ -362,7 +362,8 @@ Fixpoint py_eq (pol : upolicy) (a b : val) {struct a} : res bool :=
       end
   end.
 
-(** [x in (False, None)] — tuple membership compares [item == x]. *)
+(** [x in (False, None)] — tuple membership compares [item == x] (not used by
+    the current filters; kept for the primitive-level tie of py_eq). *)
 Definition in_false_none (pol : upolicy) (x : val) : res bool :=
   do a <- py_eq pol (VBool false) x;;
   if a then Ok true else py_eq pol VNil x.
@@ -486,7 +487,8 @@ Definition decimal_arg0 (v : val) : res Z :=
       if Nat.ltb MAX_STR_INT (length s) then LErr LiquidValueError None else
       match classify_num s with
       | NSInt z => Ok z
-      | _ => outside            (* Decimal(str): not modelled *)
+      | NSNone => Ok 0          (* Decimal(str) raises InvalidOperation: the default *)
+      | NSOutside => outside    (* a Decimal / float: not modelled *)
       end
   | _ => Ok 0
   end.
@@ -534,6 +536,48 @@ Definition py_sorted (l : list val) : res (list val) :=
       then Ok (sort_by (opt_lt str_ltb as_str) l)
       else if existsb is_vlist l then outside
       else PyExc TypeError
+  end.
+
+(** * Comparison operators (expressions.py:2023-2075) *)
+
+Definition liq_eq (pol : upolicy) (l r : val) : res bool :=
+  do l' <- unliquid pol l;;
+  do r' <- unliquid pol r;;
+  match l', r' with
+  | VBool x, VBool y => Ok (Bool.eqb x y)
+  | VBool _, _ | _, VBool _ => Ok false
+  | _, _ => py_eq pol l' r'
+  end.
+
+Definition liq_lt (pol : upolicy) (l r : val) : res bool :=
+  do l' <- unliquid pol l;;
+  do r' <- unliquid pol r;;
+  match l', r' with
+  | VStr x, VStr y => Ok (str_ltb x y)
+  | VBool _, _ | _, VBool _ => Ok false
+  | VInt x, VInt y => Ok (x <? y)
+  | _, _ => LErr LiquidTypeError None
+  end.
+
+Fixpoint list_contains (pol : upolicy) (l : list val) (x : val) : res bool :=
+  match l with
+  | [] => Ok false
+  | y :: t => do b <- py_eq pol y x;; if b then Ok true else list_contains pol t x
+  end.
+
+Definition liq_contains (pol : upolicy) (l r : val) : res bool :=
+  match l with
+  | VStr s => do t <- py_str pol r;; Ok (str_contains t s)
+  | VList items => list_contains pol items r
+  | VDict kvs =>
+      match r with
+      | VStr k => Ok (match assoc k kvs with Some _ => true | None => false end)
+      | VNil | VBool _ | VInt _ => Ok false
+      | VList _ | VDict _ => PyExc TypeError        (* unhashable *)
+      | VUndef _ => do _ <- poke pol DHash;; Ok false
+      end
+  | VUndef _ => do _ <- poke pol DContains;; Ok false
+  | VNil | VBool _ | VInt _ => LErr LiquidTypeError None
   end.
 
 (** * Filters *)
@@ -597,30 +641,28 @@ Definition f_join (pol : upolicy) (left sep : val) : res val :=
             | p :: ps => p ++ flat_map (fun q => sep' ++ q) ps
             end)).
 
-(** where / WhereFilter (filtering_filters.py:86-108) with a string key. *)
+(** where / WhereFilter (filtering_filters.py) with a string key: Liquid
+    equality [_eq] against a given value, Liquid truthiness otherwise. *)
 Definition f_where (pol : upolicy) (left key value : val) : res val :=
   do items <- sequence_arg pol left;;
   match value with
   | VNil | VUndef _ =>
-      do r <- filterM (fun itm => do x <- f_getitem pol itm key VNil;;
-                                  do b <- in_false_none pol x;; Ok (negb b)) items;;
+      do r <- filterM (fun itm => do x <- f_getitem pol itm key VNil;; is_truthy pol x) items;;
       Ok (VList r)
   | _ =>
-      do r <- filterM (fun itm => do x <- f_getitem pol itm key VNil;; py_eq pol x value) items;;
+      do r <- filterM (fun itm => do x <- f_getitem pol itm key VNil;; liq_eq pol x value) items;;
       Ok (VList r)
   end.
 
-(** MapFilter (map_filter.py:93-107) with a non-lambda argument; an item
-    without the key yields the _NULL sentinel, which is outside this model. *)
+(** MapFilter (map_filter.py) with a non-lambda argument: an item without
+    the key yields nil. *)
 Definition f_map (pol : upolicy) (left key : val) : res val :=
   do items <- sequence_arg pol left;;
   do r <- mapM (fun itm =>
                   do k <- py_str pol key;;
-                  match py_getitem pol itm (VStr k) with
-                  | Ok v => Ok v
-                  | PyExc KeyError | PyExc IndexError => outside
-                  | PyExc TypeError => if has_getitem itm then outside else LErr LiquidTypeError None
-                  | e => e
+                  match f_getitem pol itm (VStr k) VNil with
+                  | PyExc TypeError => LErr LiquidTypeError None     (* "can't map sequence" *)
+                  | r => r
                   end) items;;
   Ok (VList r).
 
@@ -647,19 +689,20 @@ Definition f_concat (pol : upolicy) (left other : val) : res val :=
 
 Definition is_nil (v : val) : bool := match v with VNil => true | _ => false end.
 
-(** CompactFilter (filtering_filters.py:161-179). *)
+(** CompactFilter (filtering_filters.py): with a key, [_property(itm, key)]
+    (a missing key is nil; IndexError escapes; TypeError becomes LiquidTypeError
+    with a message that formats the key). *)
 Definition f_compact (pol : upolicy) (left : val) (key : option val) : res val :=
   do items <- sequence_arg pol left;;
   match key with
   | None | Some VNil => Ok (VList (filter (fun v => negb (is_nil v)) items))
   | Some k =>
-      (* except TypeError: raise LiquidTypeError(f"can't read property '{key}'"):
-         formatting the key calls its __str__ *)
       do r <- filterM (fun itm =>
                          match py_getitem pol itm k with
                          | PyExc TypeError =>
                              do _ <- match k with VUndef _ => poke pol DStr | _ => Ok tt end;;
                              LErr LiquidTypeError None
+                         | PyExc KeyError => Ok false
                          | Ok x => Ok (negb (is_nil x))
                          | LErr c p => LErr c p
                          | PyExc e => PyExc e
@@ -786,48 +829,6 @@ Definition apply_filter (pol : upolicy) (f : fname) (left : val)
   | FSplit, [s], [] => f_split pol left s
   | FReverse, [], [] => do items <- sequence_arg pol left;; Ok (VList (rev items))
   | _, _, _ => outside
-  end.
-
-(** * Comparison operators (expressions.py:2023-2075) *)
-
-Definition liq_eq (pol : upolicy) (l r : val) : res bool :=
-  do l' <- unliquid pol l;;
-  do r' <- unliquid pol r;;
-  match l', r' with
-  | VBool x, VBool y => Ok (Bool.eqb x y)
-  | VBool _, _ | _, VBool _ => Ok false
-  | _, _ => py_eq pol l' r'
-  end.
-
-Definition liq_lt (pol : upolicy) (l r : val) : res bool :=
-  do l' <- unliquid pol l;;
-  do r' <- unliquid pol r;;
-  match l', r' with
-  | VStr x, VStr y => Ok (str_ltb x y)
-  | VBool _, _ | _, VBool _ => Ok false
-  | VInt x, VInt y => Ok (x <? y)
-  | _, _ => LErr LiquidTypeError None
-  end.
-
-Fixpoint list_contains (pol : upolicy) (l : list val) (x : val) : res bool :=
-  match l with
-  | [] => Ok false
-  | y :: t => do b <- py_eq pol y x;; if b then Ok true else list_contains pol t x
-  end.
-
-Definition liq_contains (pol : upolicy) (l r : val) : res bool :=
-  match l with
-  | VStr s => do t <- py_str pol r;; Ok (str_contains t s)
-  | VList items => list_contains pol items r
-  | VDict kvs =>
-      match r with
-      | VStr k => Ok (match assoc k kvs with Some _ => true | None => false end)
-      | VNil | VBool _ | VInt _ => Ok false
-      | VList _ | VDict _ => PyExc TypeError        (* unhashable *)
-      | VUndef _ => do _ <- poke pol DHash;; Ok false
-      end
-  | VUndef _ => do _ <- poke pol DContains;; Ok false
-  | VNil | VBool _ | VInt _ => LErr LiquidTypeError None
   end.
 
 (** * Expressions *)
@@ -1135,8 +1136,7 @@ Definition exec_stmt (pol : upolicy) (ev : evalT) (blk : blockT) (c : ctx) (s : 
                   | Some le =>
                       do lv <- ev c le;;
                       do n <- to_int_arg pol lv;;
-                      if n <? 0 then PyExc ValueError     (* islice(it, None, negative) *)
-                      else Ok (firstn (Z.to_nat n) items)
+                      Ok (firstn (Z.to_nat n) items)       (* limit = max(limit, 0) *)
                   end;;
       match items with
       | [] => opt_run blk c d
